@@ -294,8 +294,19 @@ def _site_text(code):
     return t.replace(" ", "_").replace('"', "")
 
 
-def _acq_pass(lines, suffixes, contains=(), releases=()):
+def _addr_arg(stmt, sfx, addr):
+    """`, <addr>(&<operand>)` when the statement is `<operand><sfx>` with a plain selector chain as operand (addressable), else ''"""
+    if not addr:
+        return ""
+    operand = stmt[:-len(sfx)]
+    return ", %s(&%s)" % (addr, operand) if re.fullmatch(r"[A-Za-z_][\w.]*", operand) else ""
+
+
+def _acq_pass(lines, suffixes, contains=(), releases=(), addr=None):
     """Inserts `verifStep("A:<func>#<n>:<text>")` before every mutex acquisition found by text. -> (new lines, [sites])
+    Additive option (REST layer): `addr` - the name of a helper `func(any) string` of the instrumented package: acquisition and
+    release notes then carry the IDENTITY of the mutex object as second argument (`verifStep("A:..", verifAddr(&s.mtx))`), so that a
+    harness can tell the mutexes of different objects of one type apart (one mutex per REST session).
     Additive options (layer 2): `contains` - a line that CONTAINS one of these texts is a site too (calls of time.Timer methods:
     `if t.Stop() {`); `releases` - suffixes of mutex releases: `verifStep("R:<text>")` goes AFTER a release statement, and for a
     deferred release `defer verifStep("R:<text>")` goes BEFORE the defer (deferred calls run last-in first-out: the unlock, then the
@@ -309,10 +320,12 @@ def _acq_pass(lines, suffixes, contains=(), releases=()):
             if not t or "verifStep(" in t:
                 continue
             if releases and any(t.endswith(sfx) for sfx in releases):
+                rsfx = next(sfx for sfx in releases if t.endswith(sfx))
                 if t.startswith("defer "):
-                    inserts.append((i, _indent(lines[i]) + 'defer verifStep("R:%s")' % _site_text(t[len("defer "):].strip())))
+                    d = t[len("defer "):].strip()
+                    inserts.append((i, _indent(lines[i]) + 'defer verifStep("R:%s"%s)' % (_site_text(d), _addr_arg(d, rsfx, addr))))
                 elif not t.startswith("go ") and not t.startswith("}"):
-                    inserts.append((i + 1, _indent(lines[i]) + 'verifStep("R:%s")' % _site_text(t)))
+                    inserts.append((i + 1, _indent(lines[i]) + 'verifStep("R:%s"%s)' % (_site_text(t), _addr_arg(t, rsfx, addr))))
                 continue
             if t.startswith("defer ") or t.startswith("go "):
                 continue
@@ -320,7 +333,8 @@ def _acq_pass(lines, suffixes, contains=(), releases=()):
                 n += 1
                 site = "%s#%d:%s" % (name, n, _site_text(t))
                 sites.append(site)
-                inserts.append((i, _indent(lines[i]) + 'verifStep("A:%s")' % site))
+                asfx = next((sfx for sfx in suffixes if t.endswith(sfx)), None)
+                inserts.append((i, _indent(lines[i]) + 'verifStep("A:%s"%s)' % (site, _addr_arg(t, asfx, addr) if asfx else "")))
     for i, text in sorted(inserts, reverse=True):
         lines[i:i] = [text]
     return lines, sites
@@ -625,7 +639,8 @@ def instrument(table_path, workdir, repo):
             out["log"].append("acquisitions: %s unreadable: %s" % (rel, ex))
             continue
         try:
-            lines, sites = _acq_pass(lines, acq.get("suffixes", [".Lock()", ".RLock()"]), tuple(acq.get("contains", ())), tuple(acq.get("releases", ())))
+            lines, sites = _acq_pass(lines, acq.get("suffixes", [".Lock()", ".RLock()"]), tuple(acq.get("contains", ())), tuple(acq.get("releases", ())),
+                                     addr=acq.get("addr"))
             out.setdefault("acq_sites_by_file", {})[rel] = list(sites)
         except Exception as ex:  # noqa
             out["log"].append("acquisitions: %s: %r" % (rel, ex))
